@@ -25,7 +25,7 @@ SPACES = {
     # thorough
     "2x2T": (2, 2, range(-2, 3), range(-3, 5), [(0, 1), (-1, 1), (0, 2), (-2, 0), (0, 3)]),
     "1x3T": (1, 3, range(-3, 4), range(-3, 5), BOUNDS4),
-    "2x3T": (2, 3, range(-2, 3), (-1, 0, 1, 2), BOUNDS3),
+    "2x3T": (2, 3, range(-2, 3), (0, 1, 2), [(0, 1), (-1, 1)]),
     "3x3T": (3, 3, (-1, 0, 1), (0, 1), [(0, 1), (-1, 1)]),
 }
 
